@@ -609,11 +609,29 @@ class FakeSelector(object):
                     w.select_ready_events += 1
         if ready:
             return ready
+        # a process signal that arrives while the loop thread sleeps in select(): the Python-level handler runs at once, the system
+        # call is then resumed (PEP 475) -- unless the handler woke the loop through its self-pipe (call_soon_threadsafe /
+        # add_callback_from_signal), in which case select returns immediately
+        target = None if timeout is None else w.clock.now + max(timeout, 0)
+        while getattr(w, 'os_signals', None):
+            due = [x for x in w.os_signals if target is None or x[0] <= target]
+            if not due:
+                break
+            t_sig, handler = min(due, key=lambda x: x[0])
+            w.os_signals.remove((t_sig, handler))
+            if t_sig > w.clock.now:
+                w.clock.now = t_sig
+                w.kernel.advance()
+            w.woken = False
+            handler()
+            if w.woken:
+                w.woken = False
+                return []
         if timeout is None:
             w.idle = True
             return []
-        if timeout > 0:
-            w.clock.now += timeout
+        if target > w.clock.now:
+            w.clock.now = target
             w.kernel.advance()
         return []
 
@@ -636,7 +654,7 @@ class VLoop(asyncio.SelectorEventLoop):
         return self._world.clock.now
 
     def _write_to_self(self):
-        pass
+        self._world.woken = True          # the self-pipe: wakes a select() in progress
 
     def call_exception_handler(self, context):
         self._world.loop_exceptions.append(context)
